@@ -489,11 +489,16 @@ func (af *AdaptationField) SetHasTransportPrivateData(value bool) error {
 		return err
 	}
 	delta := 1 * af.bitDelta(5, 0x02, value)
+	if delta < 0 {
+		delta = -af.transportPrivateDataLength() // remove the data with its length byte
+	}
 	err := af.resizeAF(af.transportPrivateDataStart(), delta)
 	if err != nil {
 		return err
 	}
-	af[af.transportPrivateDataStart()] = 0 // zero length by default
+	if delta > 0 {
+		af[af.transportPrivateDataStart()] = 0 // zero length by default
+	}
 	af.setBit(5, 0x02, value)
 	return nil
 }
@@ -550,11 +555,16 @@ func (af *AdaptationField) SetHasAdaptationFieldExtension(value bool) error {
 		return err
 	}
 	delta := 1 * af.bitDelta(5, 0x01, value)
+	if delta < 0 {
+		delta = -af.adaptationExtensionLength() // remove the data with its length byte
+	}
 	err := af.resizeAF(af.adaptationExtensionStart(), delta)
 	if err != nil {
 		return err
 	}
-	af[af.adaptationExtensionStart()] = 0
+	if delta > 0 {
+		af[af.adaptationExtensionStart()] = 0
+	}
 	af.setBit(5, 0x01, value)
 	return nil
 }
